@@ -55,6 +55,12 @@ class Prior():
             raise ValueError("Key '{}' already in key list.".format(key))
 
         if isinstance(dist, tuple):
+            if len(dist) != 2:
+                raise ValueError("If 'dist' is a tuple, it must have two " +
+                                 "elements, the lower and the upper bound.")
+            if not dist[0] < dist[1]:
+                raise ValueError("The upper bound of the range must be " +
+                                 "larger than the lower bound.")
             dist = uniform(loc=dist[0], scale=dist[1] - dist[0])
         elif isinstance(dist, numbers.Number) or hasattr(dist, 'isf'):
             pass
